@@ -57,6 +57,8 @@ M = [
  ("remove-replica-bykey-not-cleared", "src/store/fs.rs", "            let _ = tables\n                .records_by_key\n                .retain_in(bounds.as_ref(), |_k, _v| false);", "            let _ = &bounds;", ["C16"]),
  ("peers-evict-newest", "src/store/fs.rs", "                                        .remove(namespace, (oldest_nanos, oldest_peer))?;\n                                }\n                            }", "                                        .remove(namespace, (nanos, peer))?;\n                                }\n                            }", ["C17"]),
  ("peers-len-starts-at-zero", "src/store/fs.rs", "                        let mut len = 1;", "                        let mut len = 0;", ["C17"]),
+ ("crowd-remove-prefix-in-chunks-of-1000", "src/store/fs.rs", "            let count = iter.count();\n            Ok(count)", "            let count = iter.take(1000).count();\n            Ok(count)", ["C02", "C01"]),
+ ("crowd-at-most-64-subscribers-kept", "src/sync.rs", "            .into_iter()\n            .flatten()\n            .collect();\n    }\n    pub fn len", "            .into_iter()\n            .flatten()\n            .take(64)\n            .collect();\n    }\n    pub fn len", ["C12"]),
  ("migration-001-keeps-smallest", "src/store/fs/migrations.rs", "                if timestamp >= e.0 {", "                if timestamp < e.0 {", ["C18"]),
  ("migration-004-wrong-column-order", "src/store/fs/migrations.rs", "        let id = (namespace, key, author);\n        by_key_table.insert(id, ())?;", "        let id = (author, key, namespace);\n        by_key_table.insert(id, ())?;", ["C18"]),
  ("fix-d1-reverted-parents-skip-markers", "src/store/fs.rs", "let entry = get_exact(table, namespace, author, &key, true);", "let entry = get_exact(table, namespace, author, &key, false);", ["C02", "C01", "C04", "C08"]),
@@ -116,8 +118,8 @@ def main():
             rows.append((name, f, "ok", res))
             print(name, res, "%.0fs" % (time.time() - t0), flush=True)
         open(path, "w").write(src)
-    with open("/verif/seeded/hand-mutants.md", "w") as out:
-        out.write("# Hand-written sensitivity mutants (tools/mutants.py)\n\nEach edit is applied to a scratch copy of /repo, the scratch harness is rebuilt and the listed checks' quick tier is run.\nThese are probes of the checks' sensitivity, not confirmed 'seeded changes': the repository's own test suite was not run for them\n(several are certainly killed by it too).\n\n| mutant | file | result per check |\n|---|---|---|\n")
+    with open("/verif/seeded/hand-mutants.md", "a" if sel else "w") as out:
+        out.write("" if sel else "# Hand-written sensitivity mutants (tools/mutants.py)\n\nEach edit is applied to a scratch copy of /repo, the scratch harness is rebuilt and the listed checks' quick tier is run.\nThese are probes of the checks' sensitivity, not confirmed 'seeded changes': the repository's own test suite was not run for them\n(several are certainly killed by it too).\n\n| mutant | file | result per check |\n|---|---|---|\n")
         for name, f, st, res in rows:
             cell = st if st != "ok" else "<br>".join(f"{c}: {v}" for c, v in res.items())
             out.write(f"| {name} | {f} | {cell} |\n")
